@@ -32,3 +32,14 @@ claim("C07",
       "Reference mc/ref.py PocketFree in rational arithmetic; service tables are compared in the rigorous interval form for their documented 4-dp rounding.",
       "bounded-exhaustive shape enumeration against an exact reference curve",
       "DESIGN.md section 4 C07")
+
+claim("C05",
+      "Every row of both the shifted and the real-temperature table of the DI target, for every multiset of <=2/3 lattice streams (K=4; thorough adds K=5 with three contributions and gliding inside-range utilities) with and without inside-range utility levels, against the exact heat content of the hot and cold streams below the row temperature (rigorous interval form for the documented 4-dp rounding): spans, net = cold - hot, non-negativity on the shifted scale, same Qh/Qc/Qr on both scales, interval widths, dH = CP.dT and dH = difference of the cumulative column. Rows inserted later are covered by a BFS over insertion histories (depth 2) that checks the cumulative identity in every state.",
+      "Exact reference mc/ref.py Cascade.below; row 0's width is unconstrained; offset of the cold curve = Qc.",
+      "bounded-exhaustive enumeration against an exact reference + explicit-state BFS for inserted rows",
+      "DESIGN.md section 4 C05")
+claim("C06",
+      "Every residual vector over {0, +-5e-7, 2e-6, 1} of length 2..6 (quick) / 2..8 (thorough; 488 k vectors) through the real pinch_idx / pinch_temperatures, and every multiset of <=3 lattice streams (with and without utility levels beyond the range) through the service, against the exact zero set of the rational residual with the threshold rule; serialisation of equal pinches.",
+      "Whole-range-zero residuals are excluded (the property's clauses contradict each other there) and counted; one-row tables cannot arise.",
+      "bounded-exhaustive enumeration against the exact zero set of a rational cascade",
+      "DESIGN.md section 4 C06")
